@@ -74,6 +74,9 @@ def view_history(rng, tier):
             if q < 0.1: roff = []                          # offset omitted
             if q > 0.93: rcnt = []                         # count omitted: the whole window
             if q > 0.97: roff = roff + [0]                 # wrong rank
+            if 0.80 < q <= 0.87:                           # a count of another rank, with and without an offset
+                rcnt = rcnt[:-1] if len(rcnt) > 1 and rng.random() < 0.6 else rcnt + [1]
+                if rng.random() < 0.6: roff = []
             n_el = A.prod(rcnt) if rcnt else A.prod(wcnt)
             if rng.random() < 0.55:
                 lines.append('dv_rd %s %s %s %d' % (dt, A.idx(rcnt), A.idx(roff), n_el))
